@@ -12,6 +12,7 @@
 (*   C03_*  data-flow fidelity            C10_*  lazy stepping             *)
 (*   C05_*  completion                    C13_*  reply validation          *)
 (*   C16_*  asynchronous requests         C17_*  real-time / set_event     *)
+(*   C14_*  fault containment and clean shutdown                           *)
 (*                                                                         *)
 (* It is a pure state machine over a history record `h`:                   *)
 (*     RefStep(sc, h, ev) = [h |-> next history, v |-> <<violations>>]     *)
@@ -28,7 +29,10 @@
 (*       vals (set of <<eid, attr, val>>)                                  *)
 (*   CB  call-back of a simulator into mosaik during its step: s, f, arg,  *)
 (*       res                                                               *)
-(*   END run() returned / raised:     r, cat, names                        *)
+(*   END run() returned / raised:     r, cat, names, closed (event loop    *)
+(*       closed), pend / pendnames (tasks pending when it was closed)      *)
+(*   STOP  a simulator received stop/finalize: s                           *)
+(*   FAULT the harness made a simulator fail: s, kind                      *)
 (***************************************************************************)
 EXTENDS Tiered, TLC
 
@@ -86,6 +90,8 @@ InitH(sc) ==
    deliv |-> {}, delivI |-> {},             \* delivered <<conn, production>> of event connections
    setd  |-> {},                            \* set_data values waiting for the target's next step
    mal   |-> None,                          \* <<sim, what>> after a malformed reply
+   fault |-> None,                          \* <<sim, kind>> after an injected simulator failure
+   stops |-> [s \in Sids(sc) |-> 0],        \* stop/finalize calls received
    dead  |-> FALSE]                         \* bookkeeping impossible after a C02 failure
 
 Viol(c, d) == <<[c |-> c, d |-> d]>>
@@ -292,10 +298,25 @@ RefCB(sc, h, ev) ==
      IN [h |-> h, v |-> Cond(allowed <=> ev.res = "ok", "C16_refusal", <<ev.s, ev.arg, ev.res>>)]
   ELSE [h |-> h, v |-> NoV]
 
+\* C14: a simulator failed (FAULT event: the harness closed its connection, made it raise, ...).
+\* run() must end promptly with an error - or return after logging the error a remote simulator
+\* reported -, every OTHER simulator gets stop/finalize exactly once (the failed one at most once),
+\* the event loop is closed and no task is pending when it is closed.
+RefFaultEND(sc, h, ev) ==
+  LET f == h.fault[1]  kind == h.fault[2] IN
+  Cond(ev.r \notin {"deadlock", "livelock"}, "C14_run_hangs_after_simulator_failure", <<h.fault, ev.r>>)
+  \* (a simulator that dies idle AFTER its last request cannot be noticed: returning normally is then fine)
+  \o Cond(ev.r # "ok" \/ kind \in {"remote_exception", "eof_idle"}, "C14_failure_swallowed", <<h.fault, ev.r>>)
+  \o Cond(\A s \in Sids(sc) \ {f} : h.stops[s] = 1, "C14_other_simulator_not_stopped_exactly_once", <<h.fault, h.stops>>)
+  \o Cond(h.stops[f] <= 1, "C14_failed_simulator_stopped_twice", <<h.fault, h.stops>>)
+  \o Cond(ev.closed, "C14_event_loop_not_closed", <<h.fault>>)
+  \o Cond(ev.pend = 0, "C14_pending_event_loop_work_left_behind", <<h.fault, ev.pend, ev.pendnames>>)
+
 RefEND(sc, h, ev) ==
   LET lost == \E s \in Sids(sc) : h.dem[s] # {}
       guardJust == \E s \in ev.names : h.dem[s] # {} /\ OverLoop(sc, TMin(h.dem[s]))
-      v == IF h.mal # None THEN
+      v == IF h.fault # None THEN RefFaultEND(sc, h, ev)
+           ELSE IF h.mal # None THEN
               Cond(ev.r # "ok", "C13_malformed_reply_accepted", <<h.mal, ev.r>>)
               \o Cond(ev.r = "ok" \/ h.mal[1] \in ev.names, "C13_error_does_not_identify_simulator", <<h.mal, ev.r, ev.cat, ev.names>>)
            ELSE IF ev.r = "ok" THEN Cond(~lost, "C02_lost_step", h.dem)
@@ -312,6 +333,8 @@ RefStep(sc, h, ev) ==
          [] ev.k = "DE"  -> RefDE(sc, h, ev)
          [] ev.k = "CB"  -> RefCB(sc, h, ev)
          [] ev.k = "END" -> RefEND(sc, h, ev)
+         [] ev.k = "STOP" -> [h |-> [h EXCEPT !.stops[ev.s] = @ + 1], v |-> NoV]
+         [] ev.k = "FAULT" -> [h |-> [h EXCEPT !.fault = IF @ = None THEN <<ev.s, ev.kind>> ELSE @], v |-> NoV]
          [] OTHER        -> [h |-> h, v |-> NoV]
 
 Clauses(v) == {v[i].c : i \in 1..Len(v)}
